@@ -7,6 +7,7 @@ package syntax
 import (
 	"regexp"
 	re_syntax "regexp/syntax"
+	"strconv"
 	"unicode"
 	"unicode/utf8"
 )
@@ -248,9 +249,37 @@ var (
 	tokIdRule = regexpRule(`^_?[[:alpha:]]\w*\b`, ID)
 )
 
+// intTokenInRange returns true if a token matched by tokIntRule can be
+// represented as an int64.
+func intTokenInRange(val []byte) bool {
+	limit := "9223372036854775807"
+	if val[0] == '-' {
+		limit = "9223372036854775808"
+		val = val[1:]
+	}
+	for len(val) > len(limit) && val[0] == '0' {
+		val = val[1:]
+	}
+	return len(val) < len(limit) ||
+		(len(val) == len(limit) && string(val) <= limit)
+}
+
+// floatTokenInRange returns true if a token matched by tokFloatRule can be
+// represented as a float64.
+func floatTokenInRange(val []byte) bool {
+	_, err := strconv.ParseFloat(string(val), 64)
+	return err == nil
+}
+
 func nextToken(head []byte) (int, []byte) {
 	val, tokid := keywordToken(head)
 	if len(val) > 0 {
+		if (tokid == NUM_INT && !intTokenInRange(val)) ||
+			(tokid == NUM_FLOAT && !floatTokenInRange(val)) {
+			// The parser converts these tokens with parseInt and
+			// parseFloat, which panic if the value is out of range.
+			return INVALID, val
+		}
 		return tokid, val
 	}
 	val, tokid = tokIdRule(head)
